@@ -38,10 +38,19 @@ class Work:
             shutil.rmtree(self.dir, ignore_errors=True)
 
 
+COVER = os.environ.get("VERIF_COVER")      # a directory: harness binaries are built with coverage of the library (tools/coverage.py)
+COVERPKG = "github.com/insomniacslk/dhcp/...,verif/harness/..."
+
+
 def run(cmd, cwd=None, env=None, timeout=None, check=False, capture=True):
     e = dict(os.environ)
     if env:
         e.update(env)
+    if COVER and cmd and str(cmd[0]).startswith(os.path.join(VERIF, ".work")):
+        os.makedirs(COVER, exist_ok=True)
+        e["GOCOVERDIR"] = COVER
+        if any(str(a).startswith("-test.") for a in cmd):
+            cmd = list(cmd) + ["-test.gocoverdir=" + COVER]
     try:
         p = subprocess.run(cmd, cwd=cwd, env=e, timeout=timeout, stdout=subprocess.PIPE if capture else None,
                            stderr=subprocess.STDOUT if capture else None, text=True, errors="replace")
@@ -69,7 +78,8 @@ def build_vh(work):
     """Build the trace generator from /repo's CURRENT working tree with the verif hooks on."""
     h = copy_harness(work)
     out = work.path("vh")
-    run(["go1.26", "build", "-tags", "verif", "-o", out, "./cmd/vh"], cwd=h, env=GOENV, timeout=900, check=True)
+    cov = ["-cover", "-coverpkg=" + COVERPKG] if COVER else []
+    run(["go1.26", "build", "-tags", "verif", *cov, "-o", out, "./cmd/vh"], cwd=h, env=GOENV, timeout=900, check=True)
     return out
 
 
@@ -80,6 +90,8 @@ def build_test(work, pkg, name, race=False):
     cmd = ["go1.26", "test", "-c", "-tags", "verif", "-vet=off", "-o", out]
     if race:
         cmd.append("-race")
+    if COVER:
+        cmd += ["-cover", "-coverpkg=" + COVERPKG]
     cmd.append(pkg)
     run(cmd, cwd=h, env=GOENV, timeout=1200, check=True)
     return out
